@@ -449,6 +449,34 @@ func typedNil(c *core.Ctx) {
 			if x.Parent().Signature.Recv() != nil && x == x.Parent().Params[0] {
 				return true, "method receiver"
 			}
+			// a parameter of an unexported function: non-nil when every static call site passes a
+			// provably non-nil value (an extracted helper receives what its caller had checked)
+			if pf := x.Parent(); pf != nil && !ast.IsExported(pf.Name()) {
+				idx := -1
+				for i, prm := range pf.Params {
+					if prm == x {
+						idx = i
+					}
+				}
+				sites, all := 0, true
+				for _, g := range fns {
+					for _, gb := range g.Blocks {
+						for _, ins := range gb.Instrs {
+							ci, ok := ins.(ssa.CallInstruction)
+							if !ok || ci.Common().StaticCallee() != pf || idx < 0 || idx >= len(ci.Common().Args) {
+								continue
+							}
+							sites++
+							if ok2, _ := nonNil(ci.Common().Args[idx], gb, depth+1); !ok2 {
+								all = false
+							}
+						}
+					}
+				}
+				if sites > 0 && all {
+					return true, "every call site passes a non-nil value"
+				}
+			}
 		case *ssa.UnOp:
 			if x.Op == token.MUL {
 				if g, ok := x.X.(*ssa.Global); ok && g.Pkg == sp {
